@@ -283,11 +283,11 @@ def run(ctx: Ctx):
                 "certs: random 5..40 x 5..40 integer matrices; rewards: every state of Rewards.tla")
     ctx.assumptions = ["documented sense of each policy: selection on R, then AND with V (Decision.calculate)",
                        "rewards are integers in the records (ties are exact); floats only inside the implementation"]
-    spec = tlc.require_ok(tlc.run_tlc("Decisions", "Decisions_quick.cfg" if ctx.quick else "Decisions_thorough.cfg",
-                                      ctx.sub("spec"), workers=ctx.cpus, timeout=3000))
-    ctx.add_tlc(spec, "Decisions.tla spec-level theorems")
-    for inv, states in spec.invariant_violations:
-        raise tlc.MachineryError(f"Decisions.tla theorem {inv} fails at spec level:\n" + "\n".join(states[-1:]))
+    for cfgname in (["Decisions_quick.cfg"] if ctx.quick else ["Decisions_thorough2.cfg", "Decisions_thorough.cfg"]):
+        spec = tlc.require_ok(tlc.run_tlc("Decisions", cfgname, ctx.sub("spec_" + cfgname[:-4]), workers=ctx.cpus, timeout=6000))
+        ctx.add_tlc(spec, f"Decisions.tla spec-level theorems ({cfgname})")
+        for inv, states in spec.invariant_violations:
+            raise tlc.MachineryError(f"Decisions.tla theorem {inv} fails at spec level:\n" + "\n".join(states[-1:]))
     recs = gen_records(ctx, rng)
     certs = gen_certs(ctx, rng)
     validate_records(ctx, recs, certs)
